@@ -47,6 +47,46 @@ def pick_write(rng, DEF, g, tag, keys):
     return 'data', 'SET_DATA', k + g.value(), 'GET_DATA', k
 
 
+def acked_alias_write(DEF, g, tag, sa, wp, m, outcome):
+    """is m an ACKNOWLEDGED write, executed by board sa, of the DIO bit that shares its register with the bit
+    under test (ports 11 / 12 of Dewar and Switch)?  This is the `alias` disjunct of `writes_bit` in
+    C05_receiver_dewar_bit_readback / _switch_bit_readback: such a write ends the read-back guarantee."""
+    if tag not in (1, 2) or list(wp[:2]) != [g.B01, g.DIO] or wp[2] not in (11, 12):
+        return False
+    if len(m) < 10 or m[3] not in (ord(DEF.CMD_EXT_SET_DATA), ord(DEF.CMD_ABBR_SET_DATA)):
+        return False
+    if list(m[6:9]) != [g.B01, g.DIO, 23 - wp[2]]:
+        return False
+    bro = [ord(c) for c in DEF.SLAVE_ADDR_BROADCAST]
+    if m[1] != sa and m[1] not in bro:
+        return False
+    tagr, reply = outcome
+    if tagr == 2:
+        fr = H.decode_answer(DEF, reply) or []
+        return any(f['slave'] == sa and f['code'] == ord(DEF.CMD_ACK) for f in fr)
+    # no reply (broadcast without answer): acknowledged iff well formed: one value byte 0/1, right checksum
+    ext = m[3] == ord(DEF.CMD_EXT_SET_DATA)
+    if m[5] != 4 or m[9] not in (0, 1) or len(m) != (12 if ext else 10):
+        return False
+    return (not ext) or m[10] == H.xor(m[:10])
+
+
+def mismatch_class(g, tag, reg, wp, alias_written):
+    """class of a read-back mismatch: the three known findings have exact input classes, anything else is
+    `receiver_readback` (a violation)"""
+    dio_key = list(wp[:2]) == [g.B01, g.DIO]
+    writable = dio_key and wp[2] in (DEWAR_W if tag == 1 else SWITCH_W)
+    if reg in ('dio', 'data') and tag in (1, 2):
+        if not writable:
+            return 'receiver_set_data_ack_ignored'
+        if alias_written:
+            return 'receiver_dio_alias_11_12'
+        return 'receiver_readback'
+    if reg == 'data' and tag == 3 and ((wp[1] == g.DIO and wp[0] in (g.B01, g.U08)) or wp[0] == g.F32):
+        return 'receiver_lna_special_key'
+    return 'receiver_readback'
+
+
 def excluded(reg, wp, desc_kind, m):
     """is the interleaved request m a write of the quantity under test (or a re-addressing)?"""
     if desc_kind == 'SET_ADDR':
@@ -103,14 +143,16 @@ def one_test(ctx, rng, DEF, S, cfg, record=None):
         keys = [H.one(k) for k in system.slaves]
         if reg == 'dio' and wp[2] in (11, 12) and rng.random() < 0.25:
             other = 23 - wp[2]
-            send(H.build(DEF, 'SET_DATA', rng.random() < 0.5, sa, g.byte(), g.byte(),
-                         [g.B01, g.DIO, other, 1 - wp[3] if wp[3] in (0, 1) else 0]))
-            alias_written = True
+            m = H.build(DEF, 'SET_DATA', rng.random() < 0.5, sa, g.byte(), g.byte(),
+                        [g.B01, g.DIO, other, 1 - wp[3] if wp[3] in (0, 1) else 0])
+            alias_written = acked_alias_write(DEF, g, tag, sa, wp, m, send(m)) or alias_written
             continue
         m, desc = g.request(keys)
         if excluded(reg, wp, desc[0], m):
             continue
-        send(m)
+        # a random request may itself be an acknowledged write of the aliased bit (Gen.special draws DIO
+        # writes): the theorem's history excludes it, so it is tracked exactly like the injected ones
+        alias_written = acked_alias_write(DEF, g, tag, sa, wp, m, send(m)) or alias_written
     H.feed(system, [0x55] * 263)
     stream.append([0x55] * 263)
     tagr, reply = send(H.build(DEF, rk, rng.random() < 0.5, sa, g.byte(), g.byte(), rp))
@@ -119,17 +161,54 @@ def one_test(ctx, rng, DEF, S, cfg, record=None):
         return stream
     want = {'frame': wp, 'addr': wp, 'port': wp, 'data': wp, 'dio': wp}[reg]
     if fr[0]['data'] != want:
-        klass = 'receiver_readback'
-        if reg == 'dio' and alias_written:
-            klass = 'receiver_dio_alias_11_12'
-        elif reg in ('dio', 'data') and tag in (1, 2) and \
-                not (wp[0] == g.B01 and wp[1] == g.DIO and wp[2] in (DEWAR_W if tag == 1 else SWITCH_W)):
-            klass = 'receiver_set_data_ack_ignored'
-        elif reg == 'data' and tag == 3 and ((wp[1] == g.DIO and wp[0] in (g.B01, g.U08)) or wp[0] == g.F32):
-            klass = 'receiver_lna_special_key'
-        bad(klass, 'an acknowledged write does not read back', write=[wk, ext, wp], read=[rk, rp],
-            got=fr[0]['data'], board_type=tag)
+        bad(mismatch_class(g, tag, reg, wp, alias_written), 'an acknowledged write does not read back',
+            write=[wk, ext, wp], read=[rk, rp], got=fr[0]['data'], board_type=tag, sa=sa)
     return stream
+
+
+def scripted(ctx, DEF, S, e):
+    """corpus entry (corpus/C05/receiver-*.json): config, sa, reg, write [kind, ext, params], inter (segments),
+    read [kind, params]: the same verdict logic as one_test on a fixed scenario; runs first on every run"""
+    cfg = tuple(e['config'])
+    tag = cfg[0]
+    system = H.make_system(*cfg)
+    g = H.Gen(ctx.rng, DEF, tag)
+    sa, reg = e['sa'], e['reg']
+    wk, ext, wp = e['write']
+    stream = []
+
+    def send(m):
+        stream.append(list(m))
+        return H.feed(system, m)[-1]
+    tagw, reply = send(H.build(DEF, wk, ext, sa, 7, 9, wp))
+    fr = H.decode_answer(DEF, reply) if tagw == 2 else None
+    if not fr or len(fr) != 1 or fr[0]['code'] != ord(DEF.CMD_ACK):
+        return
+    alias_written = False
+    for m in e['inter']:
+        alias_written = acked_alias_write(DEF, g, tag, sa, wp, m, send(m)) or alias_written
+    rk, rp = e['read']
+    tagr, reply = send(H.build(DEF, rk, False, sa, 7, 10, rp))
+    fr = H.decode_answer(DEF, reply) if tagr == 2 else None
+    if fr and len(fr) == 1 and fr[0]['data'] is not None and fr[0]['data'] != wp:
+        ctx.fail(mismatch_class(g, tag, reg, wp, alias_written), 'an acknowledged write does not read back',
+                 dict(config=list(cfg), stream=stream, write=[wk, ext, wp], read=[rk, rp], got=fr[0]['data'],
+                      board_type=tag, sa=sa, corpus=e.get('name')))
+
+
+def corpus_entries():
+    import json
+    import os
+    from vlib.core import VERIF
+    d = os.path.join(VERIF, 'corpus', 'C05')
+    out = []
+    if os.path.isdir(d):
+        for f in sorted(os.listdir(d)):
+            if f.startswith('receiver-') and f.endswith('.json'):
+                e = json.load(open(os.path.join(d, f)))
+                e['name'] = f
+                out.append(e)
+    return out
 
 
 def correspondence(ctx):
@@ -157,6 +236,8 @@ def oracle(ctx):
     from simulators.receiver import DEFINITIONS as DEF
     rng = ctx.rng
     n = 0
+    for e in corpus_entries():
+        scripted(ctx, DEF, H.install(H.Recorder(frozen=H.NOW0)), e)
     for i in range(ctx.n(500, 8000)):
         S = H.install(H.Recorder(frozen=H.NOW0 + i))
         one_test(ctx, rng, DEF, S, H.pick_config(rng))
